@@ -584,7 +584,7 @@ func (g *Gen) respond() *Op {
 	switch {
 	case len(act) > 0 && g.chance(0.88):
 		rid = act[rng.Intn(len(act))]
-		if g.chance(0.3) {
+		if g.chance(0.15) {
 			// a pending request of a context that is no longer running (paused, killed)
 			var odd []string
 			for _, x := range act {
@@ -672,6 +672,10 @@ func (g *Gen) ctxOp() *Op {
 			w = [4]int{1, 6, 1, 3}
 		case rc.State == types.COMPLETED:
 			w = [4]int{2, 3, 1, 4} // all of these must leave a completed context alone
+		case rc.Repeated && rc.RepeatedTotal > 0 && int64(rc.BatchCounter) >= rc.RepeatedTotal:
+			w = [4]int{6, 1, 2, 2} // last batch in flight: pause now, start after it expired
+		case rc.Repeated && rc.BatchState == types.BATCHRUNNING:
+			w = [4]int{3, 1, 3, 4} // batch in flight: kill / pause race with its answers and its expiry
 		case rc.Repeated:
 			w = [4]int{3, 1, 1, 4}
 		default:
